@@ -71,6 +71,13 @@ class C16(SimpleProperty):
         if mode == "pd":
             case["target"] = rng.choice([col, col, (col + 1) % ncol, ncol])
             r_ = rng.random()
+            if r_ < 0.15:
+                case["labels"] = list(range(1, ncol + 1))                      # integer labels shifted against the positions
+            elif r_ < 0.3:
+                case["labels"] = list(range(ncol - 1, -1, -1))                 # integer labels in another order
+            elif r_ < 0.4:
+                case["labels"] = [f"c{k}" for k in range(ncol)]
+            r_ = rng.random()
             if r_ < 0.2:
                 case["index"] = list(range(nrow - 1, -1, -1))                 # reversed (e.g. after sort_values)
             elif r_ < 0.35:
@@ -109,18 +116,21 @@ class C16(SimpleProperty):
                 sc.append({"e": classify(e)})
         out["scalar"] = sc
         if case["mode"] == "pd":
-            df = pd.DataFrame(case["rows"], columns=list(range(len(case["rows"][0]))), dtype=object)
+            labels = case.get("labels") or list(range(len(case["rows"][0])))
+            df = pd.DataFrame(case["rows"], columns=labels, dtype=object)
             if case.get("index"):
                 # row labels other than 0..n-1 in order (a frame that was sorted, filtered or re-indexed before)
                 df.index = case["index"]
             kw = dict(strict=case["s"], passthrough=case["p"])
             try:
                 m = getattr(conv, "pd_" + case["meth"])
-                tgt = case["target"]
+                # columns are addressed by *label*; position `col` carries label labels[col], a new column gets a new label
+                tgt = labels[case["target"]] if case["target"] < len(labels) else (
+                    "newcol" if isinstance(labels[0], str) else max(labels) + 1)
                 if case["meth"] in ("compress", "expand"):
-                    m(df, case["col"], target_column=tgt, ambiguous=case["amb"], **kw)
+                    m(df, labels[case["col"]], target_column=tgt, ambiguous=case["amb"], **kw)
                 else:
-                    m(df, column=case["col"], target_column=tgt, **kw)
+                    m(df, column=labels[case["col"]], target_column=tgt, **kw)
                 out["rows"] = [[None if (v is None or (isinstance(v, float) and v != v)) else v for v in r]
                                for r in df.values.tolist()]
                 out["columns"] = list(df.columns)
@@ -280,7 +290,7 @@ class C16(SimpleProperty):
                      "bulk call once, then " + ", ".join(f"add_record({common.show_record(r)}, merge={k == 'merge'})"
                                                           for k, r in case["hist"]["later"]))
         if case["mode"] == "pd":
-            return [head, f"pd_{case['meth']}(DataFrame({case['rows']!r}, index={case.get('index')!r}), column={case['col']}, target_column={case['target']}, {flags})",
+            return [head, f"pd_{case['meth']}(DataFrame({case['rows']!r}, index={case.get('index')!r}, columns={case.get('labels')!r}), column={case['col']}, target_column={case['target']}, {flags})",
                     f"-> {impl.get('rows', impl.get('e'))!r}", f"scalar results: {impl['scalar']!r}"]
         return [head, f"file_{case['meth']}(<file with rows {case['rows']!r}>, {case['col']}, sep={case['sep']!r}, "
                       f"header={case['header']}, {flags})", f"-> raised {impl['result']!r}; file now {impl['rows']!r}; "
